@@ -25,6 +25,12 @@ def projection_root(t, allow_copy=True):
             t = t.a[1][0]
         elif t.op == "param":
             return t, "".join(reversed(path))
+        elif t.op == "phi" and t.a[0]:
+            # `match x { A(v) | B(v) | C(v) => v }`: the payload of whichever variant the parameter has
+            rs = [projection_root(x, allow_copy) for x in t.a[0]]
+            if all(rs) and len({r[0] for r in rs}) == 1:
+                return rs[0][0], " (payload of its variant)" + "".join(reversed(path))
+            return None
         elif t.op == "call" and len(t.a[1]) == 1 and t.a[0][0] in _ACCESSORS:
             # crate accessor (`sig.as_raw_value()`): its result is a projection of its receiver (see accessors())
             path.append(".%s()" % t.a[0][0].split("::")[-1])
